@@ -1,5 +1,5 @@
 #!/usr/bin/env python3
-"""Dev tool: run the checks against every seeded mutant (applies each patch to /repo, runs the check(s), undoes it).
+"""Dev tool: run the checks against every seeded mutant (each patch is applied to a scratch worktree, never to /repo).
 usage: tools/run_seeded.py [--tier quick|thorough] [dir-name-prefix ...]
 Writes seeded/<dir>/verif_result.json and seeded/RESULTS.md."""
 import json, os, subprocess, sys, time, glob, re
@@ -13,7 +13,8 @@ if args:
     dirs = [d for d in dirs if any(os.path.basename(d).startswith(a) for a in args)]
 def sh(cmd, **kw):
     return subprocess.run(cmd, shell=True, text=True, stdout=subprocess.PIPE, stderr=subprocess.STDOUT, **kw)
-assert sh("git -C /repo status --porcelain").stdout.strip() == "", "/repo not clean"
+WT = "/tmp/seededwt-%d" % os.getpid()
+EV = "/tmp/seeded-evidence-%d" % os.getpid()
 for d in dirs:
     name = os.path.basename(d)
     prop = name.split("-")[0]
@@ -21,19 +22,22 @@ for d in dirs:
     mp = os.path.join(d, "meta.json")
     meta = json.load(open(mp)) if os.path.exists(mp) else {}
     checks = [prop] + [c for c in meta.get("also_run", []) if c != prop]
-    r = sh("git -C /repo apply %s" % os.path.join(d, "patch.diff"))
+    sh("git -C /repo worktree remove --force %s" % WT)
+    sh("git -C /repo worktree add --detach %s HEAD -q" % WT)
+    r = sh("git -C %s apply %s" % (WT, os.path.join(d, "patch.diff")))
     if r.returncode != 0:
         print(name, "PATCH DOES NOT APPLY", r.stdout); continue
     res = {"tier": tier, "checks": {}}
     try:
         for c in checks:
             t0 = time.time()
-            p = subprocess.run(["./check", c, tier], cwd=ROOT, text=True, stdout=subprocess.PIPE, stderr=subprocess.PIPE)
+            p = subprocess.run(["./check", c, tier], cwd=ROOT, text=True, stdout=subprocess.PIPE, stderr=subprocess.PIPE,
+                               env=dict(os.environ, VERIF_REPO=WT, VERIF_EVIDENCE_DIR=EV))
             m = re.search(r"violation key=(\S+)", p.stderr)
             res["checks"][c] = {"exit": p.returncode, "key": m.group(1) if m else None, "wall_s": round(time.time() - t0)}
             print(name, c, "exit", p.returncode, m.group(1) if m else "", flush=True)
     finally:
-        sh("git -C /repo checkout -- .")
+        sh("git -C /repo worktree remove --force %s" % WT)
     res["detected"] = any(v["exit"] == 1 for v in res["checks"].values())
     json.dump(res, open(os.path.join(d, "verif_result.json"), "w"), indent=1)
 # summary
